@@ -1854,6 +1854,12 @@ func checkC16(w *World, r *Recorder) propInfo {
 		c07CBORDispatch(w, sub)
 		remap(r, sub, map[string]string{"C07-P1": "C16-N6"})
 	}
+	// N7: which field of a claims type counts as its profile field — the one
+	// with CBOR key 265 / -75000, or one NAMED Profile that carries no cbor tag
+	// at all. A field named Profile that is bound to some other key is not the
+	// profile claim; accepting it makes a type "without identifiable profile
+	// field" registrable (and its JSON member part of the dispatch).
+	c16ProfileFieldFallback(w, r)
 	r.Floor("C16-N1", 2)
 	r.Floor("C16-N2", 1)
 	r.Floor("C16-N3", 3)
@@ -2289,4 +2295,110 @@ func liftStoreHelper(w *World, fn *ssa.Function, depth int) []*ssa.Function {
 		out = append(out, liftStoreHelper(w, e.Caller.Func, depth+1)...)
 	}
 	return out
+}
+
+// c16ProfileFieldFallback: in the functions behind GetProfileJSONTag, every
+// comparison of a field's name with "Profile" happens only where the field is
+// known to carry no cbor tag: under the not-found edge of Tag.Lookup("cbor") or
+// the == "" edge of Tag.Get("cbor").
+func c16ProfileFieldFallback(w *World, r *Recorder) {
+	root := w.Enc.Func("GetProfileJSONTag")
+	if root == nil {
+		r.Undecide("C16-N7", "GetProfileJSONTag", "-", "not found")
+		return
+	}
+	isStr := func(v ssa.Value, want string) bool {
+		c, ok := v.(*ssa.Const)
+		return ok && c.Value != nil && c.Value.Kind() == constant.String && constant.StringVal(c.Value) == want
+	}
+	n := 0
+	for _, fn := range sortedFuncs(w.Reachable([]*ssa.Function{root})) {
+		if !w.InRepo(fn) || fn.Blocks == nil {
+			continue
+		}
+		// the no-cbor-tag edges of this function
+		type edge struct {
+			b *ssa.BasicBlock
+			i int
+		}
+		var noTag []edge
+		for _, b := range fn.Blocks {
+			ifi, ok := b.Instrs[len(b.Instrs)-1].(*ssa.If)
+			if !ok {
+				continue
+			}
+			cond, neg := ifi.Cond, false
+			for {
+				if u, ok := cond.(*ssa.UnOp); ok && u.Op == token.NOT {
+					cond, neg = u.X, !neg
+					continue
+				}
+				break
+			}
+			tagCall := func(v ssa.Value, method string) bool {
+				c, ok := v.(*ssa.Call)
+				if !ok {
+					return false
+				}
+				f := c.Call.StaticCallee()
+				return f != nil && f.String() == "(reflect.StructTag)."+method && len(c.Call.Args) == 2 && isStr(c.Call.Args[1], "cbor")
+			}
+			switch x := cond.(type) {
+			case *ssa.Extract:
+				if x.Index == 1 && tagCall(x.Tuple, "Lookup") {
+					// true = found; the no-tag edge is the false one
+					i := 1
+					if neg {
+						i = 0
+					}
+					noTag = append(noTag, edge{b, i})
+				}
+			case *ssa.BinOp:
+				if x.Op != token.EQL && x.Op != token.NEQ {
+					continue
+				}
+				var other ssa.Value
+				switch {
+				case isStr(x.Y, ""):
+					other = x.X
+				case isStr(x.X, ""):
+					other = x.Y
+				default:
+					continue
+				}
+				if !tagCall(other, "Get") {
+					continue
+				}
+				i := 0 // EQL: true edge = empty
+				if x.Op == token.NEQ {
+					i = 1
+				}
+				if neg {
+					i = 1 - i
+				}
+				noTag = append(noTag, edge{b, i})
+			}
+		}
+		for _, b := range fn.Blocks {
+			for _, in := range b.Instrs {
+				bo, ok := in.(*ssa.BinOp)
+				if !ok || (bo.Op != token.EQL && bo.Op != token.NEQ) || !(isStr(bo.X, "Profile") || isStr(bo.Y, "Profile")) {
+					continue
+				}
+				n++
+				guarded := false
+				for _, e := range noTag {
+					if edgeDominates(e.b, e.i, b) {
+						guarded = true
+					}
+				}
+				r.Check(guarded, "C16-N7", fnKey(fn)+"#name-fallback", w.InstrPos(bo),
+					"a field is taken for the profile field by its name only where it carries no cbor tag",
+					"a field named Profile is accepted as the profile field although it may carry a cbor tag binding it to another key: a claims type without a profile claim (265 / -75000) becomes registrable")
+			}
+		}
+	}
+	if n == 0 {
+		r.Prove("C16-N7", "name-fallback", w.FnPos(root), "no field is taken for the profile field by name", false)
+	}
 }
